@@ -1,5 +1,5 @@
 """property id -> rules, explanation of what is / is not decided"""
-from rules import r_coord, r_keyid, r_opcode, r_doaction, r_cancel, r_idle, r_loop, r_traverse, r_repeat, r_chv2, r_wait, r_macro, r_seq, r_override, r_reload, r_pipeline, r_dynmacro, r_vkey, r_layers
+from rules import r_coord, r_keyid, r_opcode, r_doaction, r_cancel, r_idle, r_loop, r_traverse, r_repeat, r_chv2, r_wait, r_macro, r_seq, r_override, r_reload, r_pipeline, r_dynmacro, r_vkey, r_layers, r_panic, r_prodcons
 
 PROPS = {
     "C01": {
@@ -9,6 +9,30 @@ PROPS = {
                        "(R-STATE-PUSH) arms of do_action that create coordinate-keyed state do so on every path and the custom "
                        "press handler only runs when its state was stored.",
         "not_decided": "bounded-time liveness over all histories; diff logic prev_keys/cur_keys; timeout arithmetic",
+    },
+    "C02": {
+        "rules": [r_panic.run_rt, r_prodcons.run],
+        "explanation": "Decides: (R-PANIC/rt) every panic-capable site (bounds check, slice/Vec index, unsigned subtraction, narrow "
+                       "addition/multiplication, negation, division, shift, unwrap/expect, assert!/unreachable!/panic!) in the "
+                       "functions reachable from the event/tick entry points is either discharged by the guard data-flow (constant "
+                       "and relational guards, range/enumerate/chunks loops, validator return summaries, caller preconditions, "
+                       "closure fact inheritance) or matched by a reviewed invariant in rules/panic_tables.py; anything else is "
+                       "reported naming the site. (R-PRODCONS) each parser-side bound that run-time arithmetic relies on "
+                       "(non-zero intervals and timeouts, non-empty tap-dance lists, chords-v2 min idle >= 5) is re-derived by "
+                       "data-flow at every aggregate / field store that produces the value.",
+        "not_decided": "value-level invariants listed in the reviewed table (each spelled out in the evidence); bounded work per "
+                       "millisecond; stack depth (recursion through rpt-any is a known limitation, see DESIGN.md); std / dependency "
+                       "internals",
+    },
+    "C03": {
+        "rules": [r_panic.run_parse],
+        "explanation": "Decides: (R-PANIC/parse) every panic-capable site in the functions reachable from cfg::new_from_str / "
+                       "new_from_file, the s-expression Debug impls and the ParseError -> miette conversion is discharged by the "
+                       "guard data-flow (argument-count checks before indexing, chunks_exact, range loops, validator summaries, "
+                       "caller preconditions, closure inheritance) or matched by a reviewed invariant; anything else is reported "
+                       "naming the site.",
+        "not_decided": "termination of loops, stack depth (self-referential defvar recursion is a known limitation), miette internals, "
+                       "char-boundary safety of span slicing beyond the reviewed lexer invariant",
     },
     "C04": {
         "rules": [r_coord.run, r_doaction.rule_state_push, r_layers.rule_fill],
